@@ -1,5 +1,5 @@
 """C18 - file-system backend == in-memory store: three structural necessary conditions (DESIGN.md section 3, C18)."""
-from .. import flow, guards, paths
+from .. import flow, guards, paths, inline
 from ..facts import callee_def, short
 from ..report import AnchorMissing
 from ..roles import Roles
@@ -12,7 +12,8 @@ def s3_methods(db, roles):
     out = {}
     for b in fscore.fs_bodies(db):
         if b.kind == "AssocFn" and b.impl_trait == roles.S3 and "FileSystem" in b.impl_self:
-            out[short(b.name)] = db.innermost_user_body(b)
+            # studied with its (sync / async) helpers inlined, so that extracting a stage of a method does not hide its effects
+            out[short(b.name)] = inline.inlined(db, db.innermost_user_body(b))
     return out
 
 
